@@ -224,7 +224,14 @@ func (c *regexpSimplifyChecker) walk(e syntax.Expr) {
 			out.WriteString(e.Value)
 		}
 
-	case syntax.OpQuestion, syntax.OpNonGreedy:
+	case syntax.OpNonGreedy:
+		c.walk(e.Args[0])
+		if x := e.Args[0]; x.Op == syntax.OpRepeat && (x.Args[1].Value == "{0}" || x.Args[1].Value == "{1}") {
+			// The repeat is not printed, so there is nothing left to make non-greedy.
+			break
+		}
+		out.WriteString("?")
+	case syntax.OpQuestion:
 		c.walk(e.Args[0])
 		out.WriteString("?")
 	case syntax.OpStar:
